@@ -541,9 +541,24 @@ fn op_tls_chain(i: &Value) -> R<Value> {
 	} else {
 		(now - 3600, now + 30 * 86400)
 	};
-	let leaf = make_cert(&to_pub(&leaf_key)?, &root_key, &strs(&i["dns"]), &strs(&i["ips"]), nb, na, "verif server", root_cn, false)?;
+	// optional: the validity window of the server certificate, in seconds relative to now
+	let nb = i["not_before_offset"].as_i64().map(|o| now + o).unwrap_or(nb);
+	let na = i["not_after_offset"].as_i64().map(|o| now + o).unwrap_or(na);
+	// optional ("intermediate": true): root -> intermediate CA -> server certificate
+	let mut inter_pem = Value::Null;
+	let inter_cn = format!("{root_cn} intermediate");
+	let (issuer_key, issuer_cn) = if i["intermediate"].as_bool().unwrap_or(false) {
+		let k = gen()?;
+		let c = make_cert(&to_pub(&k)?, &root_key, &[], &[], now - 86400, now + 3650 * 86400, &inter_cn, root_cn, true)?;
+		inter_pem = json!(String::from_utf8_lossy(&c.to_pem().map_err(e)?));
+		(k, inter_cn.as_str())
+	} else {
+		(root_key, root_cn)
+	};
+	let leaf = make_cert(&to_pub(&leaf_key)?, &issuer_key, &strs(&i["dns"]), &strs(&i["ips"]), nb, na, "verif server", issuer_cn, false)?;
 	Ok(json!({
 		"root_pem": String::from_utf8_lossy(&root.to_pem().map_err(e)?),
+		"intermediate_pem": inter_pem,
 		"leaf_pem": String::from_utf8_lossy(&leaf.to_pem().map_err(e)?),
 		"leaf_key_pem": String::from_utf8_lossy(&leaf_key.private_key_to_pem_pkcs8().map_err(e)?),
 	}))
